@@ -548,7 +548,7 @@ def run(env) -> Result:
         res.count(("parser-edge", text))
         probe_parser(text)
     srnd = mkrng(env["seed"], "c13-scan")
-    for i in range(1500 if tier == "quick" else 40000):
+    for i in range(1500 if tier == "quick" else 20000):
         text = v1.soup(srnd, srnd.randint(1, 14))
         if text in probed:
             continue
@@ -559,7 +559,7 @@ def run(env) -> Result:
             probed.add(text)
             lines.append(v1.token_request(dc, text))
             metas.append(("toks", text, v1.real_tokens(dc, text)))
-    for _ in range(300 if tier == "quick" else 8000):
+    for _ in range(300 if tier == "quick" else 5000):
         its = gen_items(srnd, srnd.randint(1, 4))
         text = v1.char_mutant(srnd, render(its, srnd if srnd.random() < 0.7 else None, rich=srnd.random() < 0.3))
         res.count(("parser-char-mutant", text), False)
